@@ -166,7 +166,7 @@ func (r *runner) run(c *Case) *result {
 		r.runLint(c, res)
 	}
 	res.DurMs = time.Since(t0).Milliseconds()
-	if res.Panic == "" && c.Channel == chWorkflow && c.Stream != "main" {
+	if c.Channel == chWorkflow && c.Stream != "main" {
 		r.observe(c, res)
 	}
 	return res
